@@ -104,6 +104,12 @@ CHECKS.update({
    tech="TLA+ thread model (TLC, mutant designs refuted) + deterministic replay of TLC schedules on real threads + TLC trace validation of hook events"),
 })
 CHECKS["C10"]["text"] += " The histories half: Registry.tla models the identity-keyed context registry with object lifetimes, address reuse and delayed death callbacks (TLC: C10_NoStaleContext holds, refuted without the identity check); create / resolve / discard histories of several documents are run with the guarded hooks and an independent lifetime monitor and validated by TLC (Registry_Trace): every hit returns the context stored for that very object, no result from another document."
+CHECKS.update({
+ "C02": dict(engine="canon", cat="model_checking", ref="DESIGN.md §7 C02",
+   text="Canon.tla builds documents in RFC-0166 layout compositionally (head shapes, let block, bindings with palette values, nested multi-line / inline sets, lists, indented strings, attrpaths, inherit / inherit-from, lead / end-of-line / block comments, blank lines, footer) so that every combination up to the bound is a reachable state; exhaustive small documents plus -simulate documents of 14 parts are rendered by the canonical printer, round-tripped by the real code, and TLC (Fmt_Trace in canonical mode, after checking Inv_C02 on the transducer model) requires output = input item for item and byte for byte.",
+   note="Trusted: TLC; the canonical printer render_canon() is this check's reading of RFC 0166 for the package-file idiom (nixfmt is not available offline); layouts that proved arguable are not generated. Exhaustive for documents of <= 1/2 parts per skeleton; larger documents are random walks.",
+   tech="TLA+ compositional document builder + TLC-judged byte identity of real round trips"),
+})
 import os
 built = {p: m for p, m in CHECKS.items()}
 checks = []
@@ -149,6 +155,8 @@ man = {
     "kind_free_text": "spec/Damage.tla (faults) + spec/Work.tla (nesting families) -> real library / CLI, renderer-call counters -> spec/Robust.tla, spec/Work_Trace.tla"},
    {"name": "proc", "path": "harness/engines/proc.py", "serves_properties": ["C15"],
     "kind_free_text": "spec/Proc.tla (threads x hook points) -> harness/sched.py cooperative scheduler on real threads, free-running threads, fresh processes -> spec/Proc_Trace.tla"},
+   {"name": "canon", "path": "harness/engines/canon.py", "serves_properties": ["C02"],
+    "kind_free_text": "spec/Canon.tla (canonical documents built part by part) -> canonical printer -> real parse/rebuild -> spec/Fmt_Trace.tla canonical mode"},
  ],
  "checks": checks,
  "notes": "All checks: ./check <ID> [--tier quick|thorough]; VERIF_SEED / VERIF_TIER honoured. Known findings: known_findings.json. See DESIGN.md.",
